@@ -109,7 +109,7 @@ func (fc *funcContext) translateStmt(stmt ast.Stmt, label *types.Label) {
 
 		if label != nil || analysis.HasBreak(clause) {
 			if label != nil {
-				fc.Printf("%s:", sanitizeName(label.Name()))
+				fc.Printf("%s:", labelName(label.Name()))
 			}
 			fc.Printf("switch (0) { default:")
 			fc.Indented(func() {
@@ -312,7 +312,7 @@ func (fc *funcContext) translateStmt(stmt ast.Stmt, label *types.Label) {
 		blockingLabel := ""
 		data := fc.flowDatas[nil]
 		if s.Label != nil {
-			normalLabel = " " + sanitizeName(s.Label.Name)
+			normalLabel = " " + labelName(s.Label.Name)
 			blockingLabel = " s" // use explicit label "s", because surrounding loop may not be flattened
 			data = fc.flowDatas[fc.pkgCtx.Uses[s.Label].(*types.Label)]
 		}
@@ -467,7 +467,7 @@ func (fc *funcContext) translateStmt(stmt ast.Stmt, label *types.Label) {
 	case *ast.LabeledStmt:
 		label := fc.pkgCtx.Defs[s.Label].(*types.Label)
 		if fc.GotoLabel[label] {
-			fc.PrintCond(false, sanitizeName(s.Label.Name)+":", fmt.Sprintf("case %d:", fc.labelCase(label)))
+			fc.PrintCond(false, labelName(s.Label.Name)+":", fmt.Sprintf("case %d:", fc.labelCase(label)))
 		}
 		fc.translateStmt(s.Stmt, label)
 
@@ -592,7 +592,7 @@ func (fc *funcContext) translateBranchingStmt(caseClauses []*ast.CaseClause, def
 	}
 
 	if label != nil && !flatten {
-		fc.Printf("%s:", sanitizeName(label.Name()))
+		fc.Printf("%s:", labelName(label.Name()))
 	}
 
 	condStrs := make([]string, len(caseClauses))
@@ -658,7 +658,7 @@ func (fc *funcContext) translateLoopingStmt(cond func() string, body *ast.BlockS
 	}()
 
 	if !flatten && label != nil {
-		fc.Printf("%s:", sanitizeName(label.Name()))
+		fc.Printf("%s:", labelName(label.Name()))
 	}
 	isTerminated := false
 	fc.PrintCond(!flatten, "while (true) {", fmt.Sprintf("case %d:", data.beginCase))
